@@ -1,9 +1,9 @@
 SPECIFICATION LSpec
 CONSTANTS
-  PDiv = 1
-  Keys = {1,2,3,4,5}
+  PDiv = 2
+  Keys = {1,2,3,4}
   Prios = {1,2,3}
-  Inits <- InitsPQ
-  UpFix = TRUE
+  NIter = 0
+  Inits <- InitsA
 VIEW View
 ACTION_CONSTRAINT Dump
